@@ -187,6 +187,13 @@ package vm
 //@   ensures bal == store(old(bal), arg0, old(bal)[arg0] + old(big(arg1))) && supply == old(supply) + old(big(arg1))
 //@   assigns bal, supply
 
+// Self-destruct removes the account's whole balance from the ledger (the implementation in
+// core/state is proved to zero it: state.StateDB.Suicide#post.value).
+//@ type StateDB.Suicide
+//@   trusted
+//@   ensures bal == store(old(bal), arg0, 0) && supply == old(supply) - old(bal)[arg0]
+//@   assigns bal, supply
+
 //@ type StateDB.GetNonce
 //@   trusted
 //@   ensures result == nonces[arg0]
@@ -222,3 +229,18 @@ package vm
 //@   trusted
 //@   ensures leftOverGas <= gas
 //@   assigns bal, nonces, refundctr, supply
+
+// Trusted observer: a contract reference reports the same address every time it is asked.
+//@ type ContractRef.Address
+//@   trusted
+//@   ensures result == refaddr(self)
+//@   assigns nothing
+
+// ---- SELFDESTRUCT never creates coins (C05) ------------------------------------------------------
+// The beneficiary is credited exactly the balance the destroyed account loses; when the
+// beneficiary is the account itself the coins are burned. The ledger never grows.
+//@ func opSuicide
+//@   requires evm != nil && evm.StateDB != nil && contract != nil && stack != nil && len(stack.data) >= 1 && stack.data[len(stack.data)-1] != nil
+//@   requires forall a common.Address :: bal[a] >= 0
+//@   ensures[C05] @nomint supply <= old(supply)
+//@   ensures[C05] @ret err == nil && len(result0) == 0
